@@ -107,9 +107,15 @@ func c01sweep(c *core.Ctx, first int) {
 				default:
 					var a, b, cc []int
 					p, pv = core.Catch(func() {
-						t.WalkInOrder(func(v int) { a = append(a, v) })
-						t.WalkPreOrder(func(v int) { b = append(b, v) })
-						t.WalkPostOrder(func(v int) { cc = append(cc, v) })
+						// which walk comes first rotates with the position in the history
+						ws := []func(){
+							func() { t.WalkInOrder(func(v int) { a = append(a, v) }) },
+							func() { t.WalkPreOrder(func(v int) { b = append(b, v) }) },
+							func() { t.WalkPostOrder(func(v int) { cc = append(cc, v) }) },
+						}
+						for k := 0; k < 3; k++ {
+							ws[(k+len(hist)+code)%3]()
+						}
 					})
 					if !p && (!eqSlice(a, model) || !sameMultiset(b, model) || !sameMultiset(cc, model)) {
 						fail("walks", fmt.Sprintf("walks give in=%v pre=%v post=%v, the multiset is %v", a, b, cc, model))
@@ -120,10 +126,21 @@ func c01sweep(c *core.Ctx, first int) {
 					fail("panic", fmt.Sprintf("%s panicked: %v", name(op), pv))
 					return
 				}
+				// a quarter of the histories are observed only by their own walk steps and at
+				// the end (a call that looks at the tree may also repair it)
+				if (code+L)%4 == 3 && len(hist) < len(ops) {
+					continue
+				}
 				var in []int
 				var ln int
 				var has [3]bool
 				if p, pv := core.Catch(func() {
+					if (code+len(hist))%2 == 0 {
+						post := t.SlicePostOrder()
+						if !sameMultiset(post, model) {
+							panic(fmt.Sprintf("SlicePostOrder (first observer after %s) gives %v, the multiset is %v", hist[len(hist)-1], post, model))
+						}
+					}
 					ln, in = t.Len(), t.SliceInOrder()
 					for v := 0; v < 3; v++ {
 						has[v] = t.Contains(v)
@@ -406,8 +423,18 @@ func avlCasePre[T comparable](c *core.Ctx, tname string, univ []T, cmp func(a, b
 		var in, pre, post []T
 		var ln int
 		if p, v := core.Catch(func() {
-			ln = l.t.Len()
-			in, pre, post = l.t.SliceInOrder(), l.t.SlicePreOrder(), l.t.SlicePostOrder()
+			// the four observers in a rotating order: each is the first to look at a tree
+			// after a mutation in a quarter of the observations
+			obs := []func(){
+				func() { ln = l.t.Len() },
+				func() { in = l.t.SliceInOrder() },
+				func() { pre = l.t.SlicePreOrder() },
+				func() { post = l.t.SlicePostOrder() },
+			}
+			first := r.Intn(4)
+			for k := 0; k < 4; k++ {
+				obs[(first+k)%4]()
+			}
 		}); p {
 			fail(op+":panic-in-observation", fmt.Sprintf("observing tree %d after %s panicked: %v", li, op, v))
 			return false
